@@ -555,6 +555,8 @@ def eq_step(case, reg, toks, t, fails):
     w = sorted((e[0], e[3]) for e in a) == sorted((e[0], e[3]) for e in b)
     if t["outcome"] == "ok" and t["ret"] != ("1" if w else "0"):
         fails.append("%s == %s returned %s; same keys with equal values: %s" % (reg, toks[2], t["ret"], w))
+    if t["outcome"] != "ok" and case.lawful and not case.injected and "inject" not in t["outcome"]:
+        fails.append("%s == %s ended %s; a comparison never panics by itself (same keys with equal values: %s)" % (reg, toks[2], t["outcome"], w))
     for r2, pre in ((reg, a), (toks[2], b)):
         g = t["snaps"].get(r2)
         if g is not None and g["ents"] != pre:
